@@ -14,7 +14,7 @@ func init() { corrTable["C05"] = func(r *Run) { connInChild(r, corrC05) } }
 func corrC05(r *Run) {
 	r.Import("Model.ConnRun")
 	r.PerShard(16)
-	r.Rule = "forced schedules: 1..8 (thorough: ..32) goroutines calling Submit with request PDUs of all 15 request types and distinct positive sequence numbers; " +
+	r.Rule = "forced schedules: 1..8 (thorough: ..24) goroutines calling Submit with request PDUs of all 15 request types and distinct positive sequence numbers; " +
 		"random walks over {issue a call (its frame reaches the transport, the Write is held), let a Write return, make the response to a written request readable, " +
 		"make an unsolicited PDU readable}: responses in any order, before or after the Write returns; fast or slow consumer of PDU(); " +
 		"first the minimised pre-repair witness (response dispatched while the Write is still open); " +
@@ -22,10 +22,11 @@ func corrC05(r *Run) {
 		"non-trivial = schedules in which at least one response was dispatched before the request's Write returned; distinct by event list"
 	ts := pduTypes()
 	c05Witness(r)
-	n := r.N(80, 2500)
-	maxCallers := r.N(8, 32)
+	n := r.N(90, 1200)
+	maxCallers := r.N(8, 24)
 	for i := 0; i < n; i++ {
-		c05Scenario(r, ts, i, maxCallers)
+		i := i
+		confirmed(r, func() { c05Scenario(r, ts, i, maxCallers) })
 	}
 	c05Resp(r, ts)
 }
